@@ -152,6 +152,7 @@ class Lemma:
     self.vars = dict(getattr(cls, "vars", {}))
     self.hyps = [Clause(c) for c in getattr(cls, "hyps", [])]
     self.concl = [Clause(c) for c in getattr(cls, "concl", [])]
+    self.proof = [Clause(c) for c in getattr(cls, "proof", [])]   # hint steps (obligation, then assumed) before concl
     self.props = set(getattr(cls, "props", []))
     self.tactic = getattr(cls, "tactic", None)
     self.cases = getattr(cls, "cases", None)
